@@ -575,6 +575,9 @@ func (e *env) noCompleteCases() {
 	for i := 0; i < n; i++ {
 		e.noCompleteCase(Case{Kind: "wrong-secret", Seed: e.seed, PadLen: vlib.Pick(rng, []int{0, 1, 17, 300, 1308}), Bit: rng.Intn(160), Sub: uint64(i)})
 	}
+	for i := 0; i < e.r.Scale(3, 30); i++ {
+		e.noCompleteCase(Case{Kind: "reflection", Seed: e.seed, Sub: uint64(i)})
+	}
 	padLen := 3
 	total := (dhSize + padLen + 2*macLen) * 8
 	step := 7
@@ -594,10 +597,13 @@ func (e *env) noCompleteCase(c Case) {
 		h := curHour()
 		pad := e.padFor(c.PadLen)
 		var stream []byte
-		if c.Kind == "wrong-secret" {
+		switch c.Kind {
+		case "wrong-secret":
 			stream = e.serverResp(flipBit(e.kB, c.Bit%160), pad, h)
-		} else {
+		case "tampered-response":
 			stream = flipBit(e.serverResp(e.kB, pad, h), c.Bit)
+		case "reflection":
+			// filled in below with the client's own flight
 		}
 		stream = append(append([]byte(nil), stream...), rng.Bytes(maxHsLen+50)...)
 		var sizes []int
@@ -612,7 +618,12 @@ func (e *env) noCompleteCase(c Case) {
 		chunks := chunkAt(stream, sizes)
 		dl := startDial(e.cf, e.ca, "10.0.0.1:1")
 		fin := dl.sc.Wait(dl.op)
-		dl.sc.TakeWritten()
+		hello := dl.sc.TakeWritten()
+		if c.Kind == "reflection" {
+			// the client's own flight sent back to it, followed by arbitrary bytes
+			stream = append(append([]byte(nil), hello...), rng.Bytes(100)...)
+			chunks = chunkAt(stream, sizes)
+		}
 		for _, ch := range chunks {
 			if fin {
 				break
@@ -643,7 +654,11 @@ func (e *env) noCompleteCase(c Case) {
 			impl = "done"
 		}
 		e.r.Count("nocomplete_outcome", impl)
-		if impl == "done" {
+		if c.Kind == "reflection" {
+			// not a wrong secret and not a tampered response: the property is silent; the model
+			// (theorem wrong_secret_never_completes, first alternative) says the client accepts it
+			e.r.Count("reflection_outcome", impl)
+		} else if impl == "done" {
 			e.r.Violate(c.Kind+"-completes", "impl-oracle", fmt.Sprintf("Dial completed on a %s stream (bit %d, server padding %d)", c.Kind, c.Bit, c.PadLen), c)
 		} else if impl == "panic" {
 			e.r.Violate("parser-panic", "impl-oracle", fmt.Sprintf("Dial panicked on a %s stream: %v", c.Kind, dl.op.Panic), c)
